@@ -18,7 +18,7 @@ package pilosa
 //      (#rows touched <= cache size): exactly min(n, #non-empty rows) pairs, counts exact,
 //      non-increasing, and the multiset of counts is that of the largest rows (ties: any of the tied).
 // The rank cache throttles implicit recalculation by wall-clock (10 s). No verdict depends on it:
-// recalculation points are explicit operations, and an instance that lived longer than 4 s is
+// recalculation points are explicit operations, and an instance that lived longer than 8 s is
 // discarded (counted, never judged).
 
 import (
@@ -222,11 +222,11 @@ func c12Err(err error) (string, string) {
 }
 
 func (in *c12Inst) Apply(op vx.Op) (got, want string) {
-	if in.dead || time.Since(in.start) > 4*time.Second {
+	if in.dead || time.Since(in.start) > 8*time.Second {
 		if !in.dead {
 			in.dead = true
 			atomic.AddInt64(&in.st.discarded, 1)
-			in.chk.NotExhaustive("an instance outlived the 4 s timing guard and was discarded (never judged)")
+			in.chk.NotExhaustive("an instance outlived the 8 s timing guard and was discarded (never judged)")
 		}
 		return "", ""
 	}
